@@ -419,12 +419,18 @@ pub fn key_states(t: &Trace) -> States {
 /// acknowledgements: (invoke seq, return seq) of flush()==Ok and clean close
 pub fn acks(t: &Trace) -> Vec<(u64, u64)> {
     // a clean close acknowledges only on a healthy device: Drop cannot report an error, so a close
-    // during which a device call failed acknowledges nothing
-    let unhealthy = |inv: u64, ret: u64| {
-        t.evs.iter().any(|e| match e {
-            Ev::F { seq, ok: false } => *seq > inv && *seq < ret,
-            _ => false,
-        }) || t.fault_seqs.iter().any(|s| *s > inv && *s < ret)
+    // after a device call failed acknowledges nothing, unless a later flush() == Ok has shown the
+    // device healthy again
+    let mut bad: Vec<u64> = t.fault_seqs.clone();
+    for e in &t.evs {
+        if let Ev::F { seq, ok: false } = e {
+            bad.push(*seq);
+        }
+    }
+    let last_bad_before = |seq: u64| bad.iter().filter(|b| **b < seq).max().copied();
+    let unhealthy = |_inv: u64, ret: u64| match last_bad_before(ret) {
+        None => false,
+        Some(b) => !t.evs.iter().any(|e| matches!(e, Ev::Flush { inv, ret: r, ok: true } if *inv > b && *r < ret)),
     };
     t.evs
         .iter()
@@ -613,6 +619,35 @@ pub struct Plan {
 }
 
 /// crash points x subsets x tearing for one trace
+/// crash exactly when an acknowledgement returns: the device as it stands (every issued write
+/// applied) and the durable part only
+pub fn ack_plans(t: &Trace) -> Vec<Plan> {
+    let mut out = Vec::new();
+    for (_inv, ret) in acks(t) {
+        let mut last_sync = 0u64;
+        let mut pending: Vec<usize> = Vec::new();
+        for (idx, e) in t.evs.iter().enumerate() {
+            match e {
+                Ev::W { seq, applied, .. } if *seq < ret => {
+                    if *applied {
+                        pending.push(idx);
+                    }
+                }
+                Ev::F { seq, ok } if *seq < ret => {
+                    if *ok {
+                        last_sync = *seq;
+                        pending.clear();
+                    }
+                }
+                _ => {}
+            }
+        }
+        out.push(Plan { cut: ret, durable_upto: last_sync, extra: pending.iter().map(|i| (*i, None)).collect(), label: format!("ack{ret}-as-it-stands") });
+        out.push(Plan { cut: ret, durable_upto: last_sync, extra: vec![], label: format!("ack{ret}-durable-only") });
+    }
+    out
+}
+
 pub fn plans(t: &Trace, rng: &mut Rng, budget: usize) -> Vec<Plan> {
     // device events in order
     let dev: Vec<(usize, &Ev)> = t.evs.iter().enumerate().filter(|(_, e)| matches!(e, Ev::W { .. } | Ev::F { .. })).collect();
@@ -753,7 +788,9 @@ pub fn run(opts: &Opts) -> i32 {
                 // T-run: the real device history must be accepted by the Coq monitor
                 let nev = t.evs.iter().filter(|e| matches!(e, Ev::W { applied: true, .. } | Ev::F { .. })).count();
                 out.emit3(&format!("monitor {base}"), &format!("accepted events={nev}"), "ok");
-                for (pi, plan) in plans(&t, &mut rng, budget).into_iter().enumerate() {
+                let mut all_plans = ack_plans(&t);
+                all_plans.extend(plans(&t, &mut rng, budget));
+                for (pi, plan) in all_plans.into_iter().enumerate() {
                     let img = build_image(&t, plan.durable_upto, &plan.extra);
                     let ipath = format!("{keep}/t{sh}_{w}_{pi}.img");
                     std::fs::write(&ipath, &img).unwrap();
@@ -947,9 +984,11 @@ pub fn run_fault(opts: &Opts) -> i32 {
             let mut rng = Rng::new(seed.wrapping_mul(11_400_714_819).wrapping_add(sh));
             let mut kinds = BTreeMap::<String, u64>::new();
             for w in 0..per {
-                let wseed = rng.next() % 1_000_000_007;
-                let blocks = *rng.pick(&[64u64, 96]);
-                let ops = rng.range(15, 40);
+                // the same workload in every shard; the shards split the fault plans between them
+                let mut wrng = Rng::new(seed.wrapping_mul(6_700_417).wrapping_add(w));
+                let wseed = wrng.next() % 1_000_000_007;
+                let blocks = *wrng.pick(&[64u64, 96]);
+                let ops = wrng.range(15, 35);
                 let common = |path: &str| {
                     vec![
                         "tracegen".to_string(),
@@ -972,30 +1011,34 @@ pub fn run_fault(opts: &Opts) -> i32 {
                     }
                 };
                 let _ = std::fs::remove_file(format!("{base0}.data"));
-                for fi in 0..nfaults {
-                    let path = format!("{keep}/f{sh}_{w}_{fi}.feox");
-                    let mut args = common(&path);
+                // every single failing call (before and after), split over the shards
+                let mut plans_f: Vec<(Vec<String>, String)> = Vec::new();
+                for i in 0..ncalls + 4 {
+                    for k in ["before", "after"] {
+                        if (2 * i + (k == "after") as u64) % shards == sh {
+                            plans_f.push((vec![format!("faults={i}:{k}")], format!("single-{k}")));
+                        }
+                    }
+                }
+                for _ in 0..nfaults {
                     let kind = rng.below(10);
-                    let label;
-                    if kind < 5 {
-                        let i = rng.below(ncalls);
-                        let k = if rng.chance(1, 2) { "before" } else { "after" };
-                        args.push(format!("faults={i}:{k}"));
-                        label = format!("single-{k}");
-                    } else if kind < 7 {
+                    if kind < 4 {
                         let i = rng.below(ncalls);
                         let j = i + 1 + rng.below(6);
-                        args.push(format!("faults={i}:{},{j}:{}", if rng.chance(1, 2) { "before" } else { "after" }, if rng.chance(1, 2) { "before" } else { "after" }));
-                        label = "pair".to_string();
-                    } else if kind < 9 {
-                        let i = rng.below(ncalls);
-                        args.push(format!("persist_from={i}"));
-                        args.push(format!("heal_at={}", rng.range(ops / 2, ops)));
-                        label = "persistent-then-healed".to_string();
+                        plans_f.push((
+                            vec![format!("faults={i}:{},{j}:{}", if rng.chance(1, 2) { "before" } else { "after" }, if rng.chance(1, 2) { "before" } else { "after" })],
+                            "pair".to_string(),
+                        ));
+                    } else if kind < 8 {
+                        plans_f.push((vec![format!("persist_from={}", rng.below(ncalls)), format!("heal_at={}", rng.range(ops / 2, ops))], "persistent-then-healed".to_string()));
                     } else {
-                        args.push(format!("persist_from={}", rng.below(ncalls)));
-                        label = "persistent".to_string();
+                        plans_f.push((vec![format!("persist_from={}", rng.below(ncalls))], "persistent".to_string()));
                     }
+                }
+                for (fi, (extra_args, label)) in plans_f.into_iter().enumerate() {
+                    let path = format!("{keep}/f{sh}_{w}_{fi}.feox");
+                    let mut args = common(&path);
+                    args.extend(extra_args);
                     let g = run_child(&args, 120);
                     if g.as_deref().map_or(false, |s| s.starts_with("tracegen-open-error")) {
                         // the failure hit the creation of the device: reported as an error, nothing to recover
@@ -1032,7 +1075,9 @@ pub fn run_fault(opts: &Opts) -> i32 {
                         }
                     }
                     // crash images along the faulted history + the device as it stands
-                    for (pi, plan) in plans(&t, &mut rng, 6).into_iter().enumerate() {
+                    let mut all_plans = ack_plans(&t);
+                    all_plans.extend(plans(&t, &mut rng, 5));
+                    for (pi, plan) in all_plans.into_iter().enumerate() {
                         let img = build_image(&t, plan.durable_upto, &plan.extra);
                         let ipath = format!("{keep}/f{sh}_{w}_{fi}_{pi}.img");
                         std::fs::write(&ipath, &img).unwrap();
